@@ -488,6 +488,7 @@ func (ndb *nodeDB) deleteVersion(version int64, cache *rootkeyCache) error {
 	rootOrphaned := false
 	if rootKey != nil {
 		if err := ndb.traverseOrphansWithRootkeyCache(cache, version, version+1, func(orphan *Node) error {
+			verifPoint("prune:orphan")
 			if !orphan.isLegacy && bytes.Equal(orphan.nodeKey.GetKey(), literalRootKey) {
 				rootOrphaned = true
 			}
